@@ -80,6 +80,7 @@ PAYLOADS = ['injected fault', '{}', '{name} {0}', '%s %(x)d %', 'line1\nline2', 
 NONDOCS = {'None': None, 'int': 0, 'bytes': b'', 'list': [], 'object': object(), 'tuple': ('a',)}
 
 SETTINGS = {}        # extra pformat settings of the tree under test (per run)
+SHARED_TREE = [False]  # the tree has an object that occurs more than once
 PLAN = {}            # invocation index -> (phase, mode, arg)
 COUNT = [0]
 FIRED = []
@@ -187,6 +188,8 @@ def _fire(i, plan, v, me):
         _raise(EXC[arg], payload)
     if mode == 'nondoc':
         return NONDOCS[arg]
+    if mode == 'sentinel':
+        return 'SENTINEL_%d_' % i
     # mode == 'repr': the healthy reference returns the value's repr as it reads outside any print
     return REPRS.get(id(v)) or repr(v)
 
@@ -413,6 +416,16 @@ def _check_fault(v, width, faults, base, other, other_base):
 
     if ref[0] != 'ok':
         raise core.HarnessError('reference run raised: %r' % (ref,))
+    if len(faults) == 1 and faults[0][2] == 'raise' and SHARED_TREE[0]:
+        # what ONE healthy invocation returns must appear once: a second occurrence of the same object is
+        # another invocation (independent of the faulty run, so a bug shared by both runs cannot cancel out)
+        f = faults[0]
+        sen, sw, _, sfired = _print(v, width, {f[0]: (f[1], 'sentinel', None)})
+        # (zero is legitimate: a commented dict value is rendered for a flat and for a broken variant,
+        # and only one of them reaches the output)
+        if sen[0] == 'ok' and sfired and sen[1].count('SENTINEL_%d_' % f[0]) > 1:
+            return viol('invocation_result_reused', 'sentinel_count_%d' % sen[1].count('SENTINEL_%d_' % f[0]),
+                        sentinel_run=sen[1][:600]), info
     if again != base[0]:
         return viol('later_call_affected', 'same_value', again=again, base=base[0]), info
     if aw != base[1]:
@@ -472,6 +485,7 @@ def execute(spec):
         REPRS[id(x)] = repr(x)
     SETTINGS.clear()
     SETTINGS.update(spec.get('settings') or {})
+    SHARED_TREE[0] = "'ref'" in repr(tree)
     width = spec['width']
     other = {'unrelated': [1, NT('z', [2])], 'k': (3,)}
     base = _print(v, width, {})
